@@ -31,20 +31,26 @@ pub struct GraphCase {
     pub mode: Mode,
     /// odd-numbered files live in sub-directory `d/` (ScanDir tasks with recursion)
     pub subdirs: bool,
-    /// a run command failing in this vertex (C04): Some(v)
+    /// a fault in this vertex (C04): Some(v)
     pub fail_at: Option<usize>,
+    /// 0 failing command, 1 missing include, 2 unused tag, 3 temp target in a missing directory,
+    /// 4 include of a non-UTF-8 file, 5 output path is a directory, 6 tampered output (verify, after a
+    /// correct build), 7 output deleted (verify)
+    pub fail_kind: u8,
+    /// AfterCat edges emit only the `after` line (no command reading the dependency)
+    pub after_only: bool,
 }
 
 impl GraphCase {
     pub fn new(n: usize, mask: u64) -> Self {
-        Self { n, mask, kinds: 0, requested: (0..n).collect(), input_style: 0, threads: 2, stale: true, dup_edges: false, markers: true, obs: false, mode: Mode::Build, subdirs: false, fail_at: None }
+        Self { n, mask, kinds: 0, requested: (0..n).collect(), input_style: 0, threads: 2, stale: true, dup_edges: false, markers: true, obs: false, mode: Mode::Build, subdirs: false, fail_at: None, fail_kind: 0, after_only: false }
     }
     pub fn graph(&self) -> Graph {
         Graph::from_mask(self.n, self.mask, self.kinds)
     }
     pub fn to_json(&self, spec: &Spec) -> Value {
         json!({"kind": "graph", "n": self.n, "mask": self.mask, "kinds": self.kinds, "requested": self.requested, "input_style": self.input_style, "threads": self.threads,
-            "stale": self.stale, "dup_edges": self.dup_edges, "markers": self.markers, "obs": self.obs, "mode": mode_name(&self.mode), "subdirs": self.subdirs, "fail_at": self.fail_at,
+            "stale": self.stale, "dup_edges": self.dup_edges, "markers": self.markers, "obs": self.obs, "mode": mode_name(&self.mode), "subdirs": self.subdirs, "fail_at": self.fail_at, "fail_kind": self.fail_kind, "after_only": self.after_only,
             "edges": self.graph().edges.iter().enumerate().map(|(i, e)| format!("f{i} -> {:?}", e.iter().map(|(j, k)| format!("f{j}{}", if *k == EdgeKind::AfterCat { "(after+cat)" } else { "" })).collect::<Vec<_>>())).collect::<Vec<_>>(),
             "schedule": spec_json(spec)})
     }
@@ -64,12 +70,14 @@ impl GraphCase {
                 mode: mode_from(v["mode"].as_str().unwrap_or("build")),
                 subdirs: v["subdirs"].as_bool().unwrap_or(false),
                 fail_at: v["fail_at"].as_u64().map(|x| x as usize),
+                fail_kind: v["fail_kind"].as_u64().unwrap_or(0) as u8,
+                after_only: v["after_only"].as_bool().unwrap_or(false),
             },
             spec_from_json(&v["schedule"]),
         )
     }
     pub fn hash(&self) -> u64 {
-        crate::util::hash_str(&format!("{:?}", (self.n, self.mask, self.kinds, &self.requested, self.input_style, self.threads, self.stale, self.dup_edges, self.subdirs, mode_name(&self.mode), self.fail_at)))
+        crate::util::hash_str(&format!("{:?}", (self.n, self.mask, self.kinds, &self.requested, self.input_style, self.threads, self.stale, self.dup_edges, self.subdirs, mode_name(&self.mode), (self.fail_at, self.fail_kind, self.after_only))))
     }
     fn dir_of(&self, i: usize) -> &'static str {
         if self.subdirs && i % 2 == 1 {
@@ -119,7 +127,7 @@ pub struct GraphRun {
 fn build_files(case: &GraphCase, generation: u32, marker_log: Option<&str>, obs_log: Option<&str>) -> Files {
     let g = case.graph();
     let flat = graph_files(&g, generation, 0xabc0 + case.mask, if case.markers { marker_log } else { None }, if case.obs { obs_log } else { None }, case.dup_edges);
-    if !case.subdirs && case.fail_at.is_none() {
+    if !case.subdirs && case.fail_at.is_none() && !case.after_only {
         return flat;
     }
     // re-home odd files into d/ and rewrite references accordingly; inject the failing command
@@ -146,17 +154,30 @@ fn build_files(case: &GraphCase, generation: u32, marker_log: Option<&str>, obs_
                     }
                 }
             }
+            if case.after_only && l.starts_with("#TXTPP#run cat ") {
+                continue;
+            }
             out.push_str(&l);
             out.push('\n');
-            if case.fail_at == Some(i) && l.contains(":tail:") {
-                // unreachable: tail is last. The failing command goes before the tail line, see below
-            }
         }
         if case.fail_at == Some(i) {
             let idx = out.rfind(&format!("{}:tail:", graph_name(i))).unwrap_or(out.len());
-            out.insert_str(idx, "<!--TXTPP#run exit 7\n");
+            let line = match case.fail_kind {
+                0 => "<!--TXTPP#run exit 7\n",
+                1 => "<!--TXTPP#include missing-file.txt\n",
+                2 => "<!--TXTPP#tag NEVERUSED\n",
+                3 => "<!--TXTPP#temp nodir/x.tmp\n<!--body\n",
+                4 => "<!--TXTPP#include bad-utf8.bin\n",
+                _ => "",
+            };
+            out.insert_str(idx, line);
         }
         files.insert(format!("{}.txtpp", case.path_of(i)), out.into_bytes());
+    }
+    if case.fail_at.is_some() && case.fail_kind == 4 {
+        for d in ["", "d/"] {
+            files.insert(format!("{d}bad-utf8.bin"), vec![b'o', b'k', 0xff, 0xfe, b'\n']);
+        }
     }
     files
 }
@@ -231,6 +252,42 @@ pub fn exec(ctx: &mut Ctx, case: &GraphCase, spec: Spec, log_events: bool) -> Gr
                 None => format!("{}:stale:g0\n", graph_name(i)).into_bytes(),
             };
             let _ = std::fs::write(root.join(&p), bytes);
+        }
+    }
+    // verify mode: plant the outputs a correct build would have left (for cyclic graphs made of
+    // `after`-only edges: the self-consistent outputs of an earlier, cycle-free revision)
+    if matches!(case.mode, Mode::Verify) {
+        let all: Vec<String> = (0..case.n).map(|i| format!("{}.txtpp", case.path_of(i))).collect();
+        let mut base = files.clone();
+        if !g.is_acyclic() {
+            for v in base.values_mut() {
+                let t = String::from_utf8_lossy(v).to_string();
+                *v = t.lines().filter(|l| !l.contains("TXTPP#after")).map(|l| format!("{l}\n")).collect::<String>().into_bytes();
+            }
+        }
+        let e = model::evaluate(&base, &root.to_string_lossy(), true, &all);
+        for (o, v) in &e.built.outputs {
+            let _ = std::fs::write(root.join(o), v[0].as_bytes());
+        }
+    }
+    // faults that live in the tree rather than in the sources
+    if let Some(f) = case.fail_at {
+        let p = root.join(case.path_of(f));
+        match case.fail_kind {
+            5 => {
+                let _ = std::fs::remove_file(&p);
+                let _ = std::fs::create_dir_all(&p);
+            }
+            6 | 7 => {
+                if case.fail_kind == 6 {
+                    let mut b = std::fs::read(&p).unwrap_or_default();
+                    b.push(b'!');
+                    let _ = std::fs::write(&p, b);
+                } else {
+                    let _ = std::fs::remove_file(&p);
+                }
+            }
+            _ => {}
         }
     }
     let before = snap(&root);
